@@ -19,6 +19,9 @@ PROP = 'C10'
 LEVEL = 'fault_enumeration'
 EVAL_KEY = 'calls'
 C = 10.0
+# per-routine constant of the eps part of the bound, from a 60 000-run calibration with graded spectra on the repaired tree:
+# worst observed err/(eps*||x||) was 1.05 for reshape, < 1 for permute and 2.7 for to_qtt (which truncates every core on its own)
+CR = {'reshape': 5.0, 'reshape_m': 5.0, 'permute': 5.0, 'permute_m': 5.0, 'to_qtt': 10.0, 'to_qtt_m': 5.0, 'qtt_roundtrip': 10.0}
 TIERS = {
     'quick': {'runs': 20000, 'opts': {}, 'chunk': 100},
     'thorough': {'runs': 80000, 'opts': {}, 'chunk': 100, 'time_cap': 1200},
@@ -28,7 +31,7 @@ RULE = ('seeded TT tensors/operators of order 1..6; reshape to an ordered factor
         'each executed fault-free and under every single primary-SVD failure, all-fail, two subsets, one double fault; evaluations = '
         'calls executed; distinct by (routine, kind, order in, order out, dtype, eps class, trailing-singleton flags, plan kind)')
 ASSUMPTIONS = ['inputs are sampled; the exhaustively enumerated dimension is the set of single primary-SVD failures of each call',
-               'constant of the bound: 10*eps*||x|| + 2000*u*||x||*d (DESIGN.md section 4, C10)',
+               'constant of the bound: C*eps*||x|| + 2000*u*prod||G_k||*d with C=5 (reshape, permute) or 10 (to_qtt), calibrated on graded spectra',
                'numpy.linalg.svd is a correct SVD']
 REAL = ['torchtt.reshape, torchtt.permute, TT.to_qtt, TT.qtt_to_tens, round (working tree)', 'torch.linalg.svd/qr', 'numpy.linalg.svd']
 STUB = ['the failure of torch.linalg.svd']
@@ -123,6 +126,8 @@ def gen_case(rng):
             p['N'][0] = 2        # an all-singleton operator has no QTT form (zero modes): outside the domain
         p['M'] = list(p['N'])
         p['R'] = [1] + [rng.randint(1, 3) for _ in range(d - 1)] + [1]
+    # graded spectrum: singular values spread over many decades so that the eps actually used by the routine matters
+    p['graded'] = {'J': rng.randint(3, 8), 'step': rng.choice([0.5, 1.0, 1.5])} if rng.random() < 0.4 else None
     return p
 
 
@@ -140,6 +145,8 @@ def qtt_shape(N):
 def build(p):
     g = gen.vgen(p['vseed'])
     M = p.get('M')
+    if p.get('graded'):
+        return TT(gen.graded_cores(p['N'], p['graded']['J'], p['graded']['step'], p['dt'], g, M))
     x = TT(gen.rand_cores(p['N'], p['R'], p['dt'], g, M))
     return x
 
@@ -211,8 +218,9 @@ def contract(p, x, y, No, Mo, ref):
     rep = 1.0      # magnitude of the representation (see c02): roundoff is relative to prod ||G_k||, not to ||x||
     for c_ in x.cores:
         rep *= gen.fro(c_)
-    bound = C * e * nx + 2000 * u * max(nx, rep) * d
+    bound = CR[p['routine']] * e * nx + 2000 * u * max(nx, rep) * d
     LAST['ratio'] = err / max(bound, 1e-300)
+    LAST['eps_ratio'] = err / max(e * nx, 1e-300) if e >= 1e-11 else None
     if not err <= bound:
         # diagnose sign / phase loss
         ip = torch.sum(torch.conj(ref) * full)
@@ -221,7 +229,7 @@ def contract(p, x, y, No, Mo, ref):
     return None
 
 
-LAST = {'ratio': None}
+LAST = {'ratio': None, 'eps_ratio': None}
 
 
 def exec_case(p, res, plans=None, rng=None):
@@ -230,7 +238,7 @@ def exec_case(p, res, plans=None, rng=None):
     x = build(p)
     snap = take_snap(x)
     call, No, Mo, ref = expected(p, x)
-    fam = '%s|%s|din%d|dout%d|%s|%s|%s' % (p['routine'], p['dt'], len(p['N']), len(No), 'default' if p['eps'] is None else 'tiny' if p['eps'] < 1e-9 else 'eps',
+    fam = ('graded|' if p.get('graded') else '') + '%s|%s|din%d|dout%d|%s|%s|%s' % (p['routine'], p['dt'], len(p['N']), len(No), 'default' if p['eps'] is None else 'tiny' if p['eps'] < 1e-9 else 'eps',
                                            'in1' if p['N'][-1] == 1 else '', 'out1' if No and No[-1] == 1 else '')
     y0, exc, f0 = svdfault.run_with_plan(call, {})
     core.bump(stats, 'calls')
@@ -248,8 +256,8 @@ def exec_case(p, res, plans=None, rng=None):
     c = contract(p, x, y0, No, Mo, ref)
     if c is not None:
         out.append(core.violation(PROP, 'CONTRACT', p['routine'], c[0], 'fault-free: ' + c[1], desc0))
-    elif LAST['ratio'] is not None and LAST['ratio'] > 0.5:
-        res['near'].append((round(LAST['ratio'], 4), fam))
+    elif LAST.get('eps_ratio') is not None and LAST['eps_ratio'] > 0.5:
+        res['near'].append((round(LAST['eps_ratio'], 4), fam))
     if plans is None:
         plans = svdfault.enumerate_plans(rng, n, max_single=10) if rng is not None else []
     for plan in plans:
@@ -316,6 +324,8 @@ def shrink_candidates(desc):
         yield {'case': dict(p, R=[1] + [min(r, 2) for r in p['R'][1:-1]] + [1]), 'plan': plan}
     if p['eps'] is not None:
         yield {'case': dict(p, eps=None), 'plan': plan}
+    if p.get('graded'):
+        yield {'case': dict(p, graded=None), 'plan': plan}
     if p['routine'] == 'reshape' and len(p['shape']) > 1:
         sh = p['shape']
         for k in range(len(sh) - 1):
